@@ -46,6 +46,8 @@ class Func:
             if d is not None:
                 self.defaults[p] = d
         self.locals = local_names(node)
+        self.cached = any((dotted_of(d.func if isinstance(d, ast.Call) else d) or "").split(".")[-1] in ("lru_cache", "cache")
+                          for d in node.decorator_list)
         self.is_method = cls is not None and bool(self.posparams) and self.posparams[0] == "self"
 
     @property
@@ -126,7 +128,11 @@ class Module:
             elif isinstance(n, ast.ImportFrom) and any(a.name == "*" for a in n.names):
                 self.forbidden.append((n.lineno, "star import"))
             elif isinstance(n, (ast.FunctionDef, ast.ClassDef)) and n.decorator_list:
-                self.forbidden.append((n.lineno, "decorator on " + n.name))
+                for d in n.decorator_list:
+                    dn = dotted_of(d.func if isinstance(d, ast.Call) else d) or "?"
+                    if dn.split(".")[-1] in ("lru_cache", "cache"):
+                        continue          # modelled: the function's results are shared between calls (Func.cached)
+                    self.forbidden.append((n.lineno, "decorator @%s on %s" % (dn, n.name)))
 
     def _scan_stmt(self, n):
         if isinstance(n, ast.Import):
